@@ -356,16 +356,23 @@ func (e *Engine) convert(v Value, from, to types.Type) Value {
 					}
 					return e.mkStr(bs)
 				}
-				// []rune -> string: concrete only
-				var out []byte
+				// []rune -> string: concrete runes of any kind; symbolic runes on the ASCII branch
+				// (one byte each), the non-ASCII branch of a symbolic rune is unsupported
+				var out []*smt.Term
 				for i := 0; i < x.Len; i++ {
 					r := e.load(e.sub(x.Arr, x.Off+i)).(*smt.Term)
 					if !r.IsConst() {
-						e.unsupported("symbolic []rune to string")
+						if e.branch(e.ctx.Cmp(smt.OpBVUlt, e.ctx.ZExt(r, 64), e.intC(0x80))) {
+							out = append(out, e.ctx.Extract(r, 7, 0))
+							continue
+						}
+						e.unsupported("symbolic non-ASCII rune in []rune to string")
 					}
-					out = utf8.AppendRune(out, rune(int32(r.C)))
+					for _, b := range utf8.AppendRune(nil, rune(int32(r.C))) {
+						out = append(out, e.ctx.BV(uint64(b), 8))
+					}
 				}
-				return Str{S: string(out)}
+				return e.mkStr(out)
 			case *smt.Term: // integer -> string (rune)
 				if !x.IsConst() {
 					// fork on ASCII
